@@ -179,6 +179,12 @@ Definition warp_coords (D : nat) (f : form) (ac : bool) (M : mat) (tg g src : gr
   gen_pts2 D (cubeax ac) (cubeax ac) (gN D g) (gS D g) (gC D g) (gD D g) (gN D src) (gS D src) (gC D src) (gD D src)
     (gen_forward D f M
       (gen_pts2 D (cubeax ac) (cubeax ac) (gN D tg) (gS D tg) (gC D tg) (gD D tg) (gN D g) (gS D g) (gC D g) (gD D g) xc)).
+(* flip_coords = True: the transform acts on coordinates in (z, y, x) order; the grid maps always act in (x, y, z) order, so the
+   lattice point is pre-mapped first, then flipped, transformed, flipped back and mapped to the source cube *)
+Definition warp_coords_flip (D : nat) (f : form) (ac : bool) (M : mat) (tg g src : gridf) (xc : vec) : vec :=
+  gen_pts2 D (cubeax ac) (cubeax ac) (gN D g) (gS D g) (gC D g) (gD D g) (gN D src) (gS D src) (gC D src) (gD D src)
+    (rev (gen_forward D f M (rev
+      (gen_pts2 D (cubeax ac) (cubeax ac) (gN D tg) (gS D tg) (gC D tg) (gD D tg) (gN D g) (gS D g) (gC D g) (gD D g) xc)))).
 (* output sample at target index j: target.coords(align_corners=ac)[j] -> warp_coords -> grid_sample(ac) *)
 Definition target_coord (D : nat) (ac : bool) (tg : gridf) (j : vec) : vec :=
   gen_pts D GRID (cubeax ac) (gN D tg) (gS D tg) (gC D tg) (gD D tg) j.
